@@ -354,7 +354,7 @@ def ops_for(ref):
         for m in names + ['zz']:
             ops.append(('move_state', n, m))
     for n in names + ['zz']:
-        for m in names[:3] + [None, 'zz']:
+        for m in names[:3] + [None, 'zz', '']:      # '' is not None: it names a state that does not exist
             ops.append(('add_transition', n, m, 'k'))
     seen_t = set()
     for t in ref.tr:
